@@ -3,6 +3,7 @@
 mod evidence;
 mod exec_load;
 mod fsbox;
+mod gen_gfx;
 mod gen_load;
 mod gen_sixel;
 mod gen_term;
